@@ -99,7 +99,7 @@ DIV = {"udiv", "utruediv", "urem", "rudiv", "rurem", "sdiv", "smod"}
 def obligations(tier):
     T = _table()
     quick = tier == "quick"
-    widths = [1, 4, 8, 16, 64] if quick else [1, 2, 3, 4, 5, 7, 8, 12, 16, 24, 32, 64, 128]
+    widths = [1, 3, 4, 8, 12, 16, 64] if quick else [1, 2, 3, 4, 5, 7, 8, 12, 16, 24, 32, 64, 128]
     out = []
     for name, (ar, impl, ref, kind) in T.items():
         if impl is None:
